@@ -16,8 +16,8 @@ CHECKS = {
  'C03': dict(level='exploration', tech=PBT + " + boundary-class enumeration, crash-isolated worker subprocesses under two build profiles",
    text="Every case runs in a worker subprocess built twice (release; release + debug assertions + overflow checks): panics (with the repository frame as signature), aborts, signals and stack exhaustion are attributed to the case in flight. Domain: all ten selectors on every n < 2^17, tiny p*q / p^2 / p^3, 57..64-bit inputs and the top of the u64 range, integers around 2^52/2^64/2^80/2^128, 480..512-bit fast shapes, 513..1023-bit inputs that must be refused, and generated composites per selector.",
    note="termination only up to a per-case watchdog (inconclusive if hit); default preferences plus threads {None,2}; 501..512-bit band probed", ref='DESIGN.md section 2, C03'),
- 'C04': dict(level='exploration', tech="differential testing over thread counts with repetition + seeded schedule perturbation through a yield hook + generated insertion orders replayed into the relation store",
-   text="Schedules are sampled, not enumerated: (1) each generated contention-prone input is run with 2..16 threads repeatedly and compared with the single-threaded run (terminates, no panic, valid, complete if the reference is complete); (2) the same with seeded yields/spins/sleeps injected at every lock acquisition and completion check; (3) because every mutation of the relation store happens under its write lock, any interleaving equals some order of add calls: recorded adds of real sieves are replayed in generated orders with the C11 invariants checked after every step.",
+ 'C04': dict(level='exploration', tech="differential testing over thread counts with repetition + seeded schedule perturbation and directed delay-only schedules (window, freeze, ambush, stale publication) through a yield hook + generated insertion orders replayed into the relation store",
+   text="Schedules are sampled, not enumerated: (1) each generated contention-prone input is run with 2..16 threads repeatedly and compared with the single-threaded run (terminates, no panic, valid, complete if the reference is complete); (2) the same with seeded yields/spins/sleeps injected at every lock acquisition and completion check, and with four directed schedules that hold workers exactly where the shared completion bookkeeping (count, target, gap, done) is read, decided on or published; (3) because every mutation of the relation store happens under its write lock, any interleaving equals some order of add calls: recorded adds of real sieves are replayed in generated orders with the C11 invariants checked after every step.",
    note="cannot exclude races on the relaxed atomics; OS scheduling is outside the harness's control (said in DESIGN.md section 6)", ref='DESIGN.md section 2, C04'),
  'C05': dict(level='fault_enumeration', tech="fault injection: counter fault on the abort predicate, flip instant enumerated after a calibration run; latency measured inside the worker",
    text="The abort predicate returns true from its k-th poll onward; for small inputs a calibration run counts the polls P of an un-aborted run and every k in [0, min(P,64)] plus generated k up to P is run, for six polling selectors, single- and 4-threaded; long inputs (un-aborted run takes minutes) are aborted at early k so that ignoring the predicate is observable. Oracle: product predicate or declared failure, no crash, return within a fixed delay after the first true (slow runs are repeated alone and flagged only if slow three times).",
